@@ -9,6 +9,9 @@ require (
 
 require lukechampine.com/blake3 v1.0.0
 
-require github.com/mroth/weightedrand v0.2.1 // indirect
+require (
+	github.com/mitchellh/go-wordwrap v1.0.0 // indirect
+	github.com/mroth/weightedrand v0.2.1 // indirect
+)
 
 replace github.com/TimothyStiles/poly => /repo
